@@ -475,3 +475,28 @@ Qed.
 
 Lemma holds_disp_deliver p c m beh : (p < num_plugins)%N -> holds_disp p c m beh (deliver p c m beh) = true.
 Proof. intros Hp. unfold holds_disp. rewrite (deliver_total p c m beh Hp). apply delivery_eqb_refl. Qed.
+
+(* ---- consecutive sessions of one stub ---------------------------------------- *)
+
+(* regenerated fact: Configure does not write stub.events *)
+Lemma stores_off : configure_stores_events = false.
+Proof. reflexivity. Qed.
+
+Lemma run_sessions_independent ev hooks : run_sessions false ev hooks = map (configure_with ev) hooks.
+Proof.
+  induction hooks as [|h r IH]; [reflexivity|]. cbn [run_sessions map].
+  assert (snd (configure_st false ev h) = ev) as E.
+  { unfold configure_st. cbn [snd]. destruct h; try reflexivity. destruct (configure_with ev (HookMask m)); reflexivity. }
+  rewrite E, IH. reflexivity.
+Qed.
+
+Lemma sessions_independent p hooks : sessions p hooks = map (configure p) hooks.
+Proof. unfold sessions. rewrite stores_off. exact (run_sessions_independent (stub_events p) hooks). Qed.
+
+Lemma sessions_hold p hooks :
+  (p < num_plugins)%N ->
+  Forall2 (fun h r => holds_cfg p h r = true) hooks (sessions p hooks).
+Proof.
+  intros Hp. rewrite sessions_independent. induction hooks as [|h r IH]; cbn [map]; constructor; [|exact IH].
+  exact (holds_cfg_configure p h Hp).
+Qed.
